@@ -172,6 +172,9 @@ def _shard(shard, nshards, payload):
     for i, spec in enumerate(specs):
         if i % nshards != shard:
             continue
+        if spec.get('special'):
+            getattr(mod, spec['special'])(st, spec)
+            continue
         if spec.get('embed') or spec.get('described'):
             mod.check_embed(st)
             continue
